@@ -161,11 +161,22 @@ type memConn struct {
 	// stutter: every other Read returns (0, nil) without consuming anything, which io.Reader permits ("nothing happened")
 	stutter bool
 	tick    int
+
+	// full-duplex model: onRead / onWrite run at the start of the k-th Read / Write call on this end (k from 0),
+	// before the call touches the stream - the point at which another goroutine using the other direction of the
+	// same connection may have run
+	onRead, onWrite func(k int)
+	nRead, nWrite   int
 }
 
 func (m *memConn) Read(p []byte) (int, error) {
 	if len(p) == 0 {
 		return 0, nil
+	}
+	if m.onRead != nil {
+		k := m.nRead
+		m.nRead++
+		m.onRead(k)
 	}
 	m.in.mu.Lock()
 	defer m.in.mu.Unlock()
@@ -195,6 +206,11 @@ func (m *memConn) Read(p []byte) (int, error) {
 }
 
 func (m *memConn) Write(p []byte) (int, error) {
+	if m.onWrite != nil {
+		k := m.nWrite
+		m.nWrite++
+		m.onWrite(k)
+	}
 	m.out.mu.Lock()
 	m.out.buf = append(m.out.buf, p...)
 	m.out.mu.Unlock()
@@ -360,6 +376,14 @@ type Case struct {
 
 	// concat: indices into the frame alphabet
 	Frames []int `json:"frames,omitempty"`
+
+	// frame-duplex: Mode read-inside-write | write-inside-read, At = index of the socket call at whose start the
+	// other direction runs; the other direction's frame is (ID2, Type2, PayloadLen2)
+	Mode        string `json:"mode,omitempty"`
+	At          int    `json:"at,omitempty"`
+	ID2         int32  `json:"id2,omitempty"`
+	Type2       int32  `json:"type2,omitempty"`
+	PayloadLen2 int    `json:"payload_len2,omitempty"`
 
 	// declared
 	Declared int32 `json:"declared,omitempty"`
@@ -527,6 +551,86 @@ func judgeFrameWrite(c Case) {
 		fail("frame/WritePacket/bytes-differ-from-layout/"+shape+"/"+idShape(c.ID), c.PayloadLen, c, "WritePacket(%d,%d,%d-byte %s payload) wrote %s, reference layout is %s", c.ID, c.Type, c.PayloadLen, c.PayloadKind, clip(got), clip(want))
 	}
 }
+
+// judgeFrameDuplex: one RCONConn used in both directions at once, as a net.Conn may be. The interleaving is fixed at
+// socket-call granularity: at the start of the At-th Write (Read) call of a WritePacket (ReadPacket), a complete
+// ReadPacket (WritePacket) runs on the SAME RCONConn, as a second goroutine serving the other direction would. Both
+// frames must come out as if the two operations had run one after the other: the directions share nothing but the
+// connection.
+func judgeFrameDuplex(c Case) {
+	plOut := payload(c.PayloadKind, c.PayloadLen)
+	plIn := payload("ascii", c.PayloadLen2)
+	wantOut := refrcon.Frame(c.ID, c.Type, plOut)
+	frameIn := refrcon.Frame(c.ID2, c.Type2, plIn)
+	a, b := duplex()
+	c.reader(a)
+	b.out.put(frameIn)
+	r := &mcnet.RCONConn{Conn: a}
+	var (
+		id, typ int32
+		p       string
+		rerr    error
+		werr    error
+		fired   bool
+	)
+	doRead := func() { id, typ, p, rerr = r.ReadPacket() }
+	doWrite := func() { werr = r.WritePacket(c.ID, c.Type, string(plOut)) }
+	size := c.PayloadLen + c.PayloadLen2
+	if c.Mode == "read-inside-write" {
+		a.onWrite = func(k int) {
+			if k == c.At && !fired {
+				fired = true
+				saved := a.onWrite
+				a.onWrite = nil
+				doRead()
+				a.onWrite = saved
+			}
+		}
+		if guard("duplex/WritePacket", size, c, doWrite) {
+			return
+		}
+		if !fired {
+			if guard("duplex/ReadPacket", size, c, doRead) { // the write used fewer socket calls: plain sequence
+				return
+			}
+		}
+	} else {
+		a.onRead = func(k int) {
+			if k == c.At && !fired {
+				fired = true
+				doWrite()
+			}
+		}
+		if guard("duplex/ReadPacket", size, c, doRead) {
+			return
+		}
+		if !fired {
+			if guard("duplex/WritePacket", size, c, doWrite) {
+				return
+			}
+		}
+	}
+	rep.Eval(1)
+	if fired {
+		atomic.AddInt64(&duplexFired, 1)
+	}
+	got := b.in.take()
+	pre := "duplex/" + c.Mode + "/"
+	switch {
+	case werr != nil:
+		fail(pre+"WritePacket/error", size, c, "WritePacket returned %v", werr)
+	case !bytes.Equal(got, wantOut):
+		fail(pre+"WritePacket/bytes-differ-from-layout", size, c, "the frame written while a frame was being read on the same RCONConn is %s, reference layout is %s", clip(got), clip(wantOut))
+	case rerr != nil:
+		fail(pre+"ReadPacket/error-on-valid-frame", size, c, "ReadPacket of %s returned %v", clip(frameIn), rerr)
+	case id != c.ID2 || typ != c.Type2 || p != string(plIn):
+		fail(pre+"ReadPacket/wrong-frame", size, c, "ReadPacket returned (%d,%d,%d-byte payload) while a frame was being written on the same RCONConn; the peer sent (%d,%d,%d-byte payload)", id, typ, len(p), c.ID2, c.Type2, len(plIn))
+	case a.in.unread() != 0:
+		fail(pre+"ReadPacket/not-self-delimiting", size, c, "%d bytes unread after the only frame", a.in.unread())
+	}
+}
+
+var duplexFired int64
 
 // ---------------------------------------------------------------------------------------------
 // part: concat
@@ -1370,6 +1474,8 @@ func judge(c Case) {
 		judgeAdvClient(c)
 	case "frame-write":
 		judgeFrameWrite(c)
+	case "frame-duplex":
+		judgeFrameDuplex(c)
 	case "login-hist":
 		judgeLoginHist(c)
 	case "listener-hist":
@@ -1529,6 +1635,28 @@ func main() {
 	}
 	rep.Sample(Case{Part: "frame", ID: 1, Type: 2, PayloadKind: "ascii", PayloadLen: 1012, EOF: true})
 	flush()
+
+	// ---- frame-duplex: both directions of one RCONConn at once, interleaved at every socket call
+	nDuplex := 0
+	for _, mode := range []string{"read-inside-write", "write-inside-read"} {
+		for _, n1 := range []int{0, 1, 49, 300} {
+			for _, n2 := range []int{0, 3, 70, 1000} {
+				for _, chunk := range []int{0, 1, 2, 3, 5} {
+					if mode == "read-inside-write" && chunk > 1 {
+						continue
+					}
+					for at := 0; at < 8; at++ {
+						cases = append(cases, Case{Part: "frame-duplex", Mode: mode, At: at, ID: 7, Type: 2, PayloadKind: "ascii", PayloadLen: n1,
+							ID2: 0x01020304, Type2: 0, PayloadLen2: n2, Chunk: chunk})
+						nDuplex++
+					}
+				}
+			}
+		}
+	}
+	flush()
+	rep.Count("frame_duplex_cases", int64(nDuplex))
+	rep.Count("frame_duplex_cases_in_which_the_other_direction_ran_inside_the_call", duplexFired)
 
 	// ---- concat
 	maxSeq := 4
